@@ -88,6 +88,26 @@ impl DnsCache {
         &self.ptr
     }
 
+    #[cfg(feature = "verif-hooks")]
+    pub(crate) fn all_srv(&self) -> &HashMap<String, Vec<DnsRecordIntf>> {
+        &self.srv
+    }
+
+    #[cfg(feature = "verif-hooks")]
+    pub(crate) fn all_txt(&self) -> &HashMap<String, Vec<DnsRecordIntf>> {
+        &self.txt
+    }
+
+    #[cfg(feature = "verif-hooks")]
+    pub(crate) fn all_addr(&self) -> &HashMap<String, Vec<DnsRecordIntf>> {
+        &self.addr
+    }
+
+    #[cfg(feature = "verif-hooks")]
+    pub(crate) fn all_nsec(&self) -> &HashMap<String, Vec<DnsRecordIntf>> {
+        &self.nsec
+    }
+
     /// Count all PTR records in the cache.
     pub(crate) fn ptr_count(&self) -> usize {
         self.ptr.values().map(|v| v.len()).sum()
